@@ -1410,7 +1410,10 @@ func c03SyncGated(c *Ctx) {
 				continue
 			}
 			// on the queried-head path the CID synced is the head query's result and the call is on its err == nil edge
-			next := cs.X.Args[2]
+			next := slotOf(c.SlotArgs(cs), "go-cid.Cid", 0) // (the root CID, positional or in a parameter object)
+			if next == nil {
+				next = cs.X.Args[2]
+			}
 			usesHead := next.Contains(func(y *X) bool { return Same(y, hcid) })
 			if !usesHead {
 				c.Bad("C03.V6-sync-gated-by-head", f.Name+" › sync", cs.In.Pos(), "the CID synced is not (a merge including) the validated head query result")
